@@ -235,3 +235,49 @@ func VerifHarness_C20_LongQueryCase() {
 		verifReach("nonempty")
 	}
 }
+
+// letters outside ASCII have upper and lower case too (Cyrillic, accented Latin, Greek): queries
+// that differ only in their case give the same answer on every path, TF-IDF re-ranking included
+func VerifHarness_C20_RespellingsNonASCII() {
+	mk := func(cmd, desc string) Command {
+		c := Command{Command: cmd, Description: desc}
+		vFill(&c)
+		return c
+	}
+	db := &Database{Commands: []Command{
+		mk("ls", "показать файлы каталога"), mk("cat файл", "показать содержимое файла"), mk("mkdir", "créer un répertoire élevé"),
+		mk("rm", "Удалить Файлы"), mk("find", "αρχείο εύρεση"), mk("zz", "yy файлы"),
+	}}
+	db.BuildUniversalIndex()
+	db.buildTFIDFSearcher()
+	sp := [][]string{
+		{"показать файлы", "Показать Файлы", "ПОКАЗАТЬ ФАЙЛЫ", "показать файлЫ"},
+		{"créer répertoire", "Créer Répertoire", "CRÉER RÉPERTOIRE", "crÉer répertoire"},
+		{"удалить файлы", "Удалить файлы", "УДАЛИТЬ ФАЙЛЫ", "удалитЬ Файлы"},
+		{"αρχείο", "Αρχείο", "ΑΡΧΕΊΟ", "αρχΕίο"},
+	}[verifIntRange("query", 0, 3)]
+	o := SearchOptions{Limit: 5, UseNLP: verifBool("nlp"), UseFuzzy: verifBool("fuzzy"), FuzzyThreshold: -30, AllPlatforms: true}
+	entry := verifIntRange("entry", 0, 2)
+	search := func(q string) []SearchResult {
+		switch entry {
+		case 1:
+			return db.SearchWithNLP(q, o)
+		case 2:
+			return NewCachedDatabase(db).SearchWithOptionsAndCache(q, o)
+		}
+		return db.SearchUniversal(q, o)
+	}
+	a := search(sp[0])
+	b := search(sp[verifIntRange("spelling", 1, 3)])
+	verifAssert(len(a) == len(b), "C20: a re-cased query returns the same number of results")
+	if len(a) == len(b) {
+		for k := range a {
+			verifAssert(a[k].Command == b[k].Command, "C20: a re-cased query returns the same commands in the same order")
+			verifAssert(c03SameFloat(a[k].Score, b[k].Score), "C20: a re-cased query returns the same scores")
+		}
+	}
+	verifReach("compared")
+	if len(a) > 0 {
+		verifReach("nonempty")
+	}
+}
